@@ -347,7 +347,13 @@ func (t *Transport) run() {
 				for i := 0; i < length; i++ {
 					if cq.Rear().value.lastTime.Add(t.IdleConnTimeout).Before(time.Now()) {
 						pc := cq.Dequeue()
-						pc.Close()
+						if pc.NumCalls() == 0 {
+							pc.Close()
+						} else {
+							// A call is outstanding (the connection was handed out
+							// just before it was retired): keep it.
+							cq.Enqueue(pc)
+						}
 					} else {
 						cq.Rear().value.Ping()
 					}
@@ -389,9 +395,15 @@ func (t *Transport) CloseIdleConnections() {
 		length := cq.Length()
 		for i := 0; i < length; i++ {
 			pc := cq.Dequeue()
-			pc.Close()
+			if pc.NumCalls() == 0 {
+				pc.Close()
+			} else {
+				cq.Enqueue(pc)
+			}
 		}
-		delete(t.idleConns, cq.addr)
+		if cq.Length() == 0 {
+			delete(t.idleConns, cq.addr)
+		}
 	}
 }
 
